@@ -2,4 +2,4 @@ from . import raggedhist
 
 
 def run(tier, seed):
-    return raggedhist.run_check('C04', tier, seed, 'data+overflow')
+    return raggedhist.run_check('C04', tier, seed, 'data+overflow+ctx' if tier == 'thorough' else 'data+overflow')
